@@ -68,6 +68,38 @@ type callRec struct {
 	out     atomic.Int32 // key-client calls in flight
 	// the caller's context may be cancelled while fetches are in flight
 	cancellable bool
+	// grants: per key-client request of this call, the time its context still
+	// had when the request went out, how long the server took, and whether the
+	// context ran out first
+	grants []grant
+}
+
+type grant struct {
+	kind    string // get | lookup
+	server  spec.ServerName
+	given   time.Duration // deadline minus the instant the request went out (valid only if bounded)
+	bounded bool
+	lat     time.Duration
+	expired bool
+	at      time.Time     // when the library made the call
+	waited  time.Duration // from then to the failure (simulated time may also pass while the request is parked)
+}
+
+func (r *callRec) grant(g grant) {
+	if r == nil {
+		return
+	}
+	r.mu.Lock()
+	r.grants = append(r.grants, g)
+	r.mu.Unlock()
+}
+
+func grantOf(ctx context.Context, kind string, server spec.ServerName, lat time.Duration) grant {
+	g := grant{kind: kind, server: server, lat: lat, at: time.Now()}
+	if dl, ok := ctx.Deadline(); ok {
+		g.given, g.bounded = time.Until(dl), true
+	}
+	return g
 }
 
 type recKey struct{}
@@ -447,19 +479,27 @@ func (c *simClient) GetServerKeys(ctx context.Context, name spec.ServerName) (gm
 		rec.out.Add(1)
 		defer rec.out.Add(-1)
 	}
+	g := grantOf(ctx, "get", name, 0) // what the library granted this request, before anything else happens
 	c.w.s.Yield(task, label)
+	lat := c.latency()
+	g.lat = lat
 	if err := ctx.Err(); err != nil {
 		// a real HTTP client does not even start a request whose context has ended
 		c.w.r.Fault("ctx_done_before_request")
 		c.note(task+"|"+label, &respRec{kind: "error"})
+		g.expired, g.waited = true, time.Since(g.at)
+		rec.grant(g)
 		return gmsl.ServerKeys{}, err
 	}
-	if err := c.sleep(ctx, task, label, c.latency()); err != nil {
+	if err := c.sleep(ctx, task, label, lat); err != nil {
 		c.w.r.Fault("timeout")
 		c.w.r.Logf("  %s[%s] -> %v", label, task, err)
 		c.note(task+"|"+label, &respRec{kind: "error"})
+		g.expired, g.waited = true, time.Since(g.at)
+		rec.grant(g)
 		return gmsl.ServerKeys{}, err
 	}
+	rec.grant(g)
 	rr, err := c.respond(name)
 	if err != nil {
 		c.w.r.Logf("  %s[%s] -> %v", label, task, err)
